@@ -169,6 +169,9 @@ Next ==
   \/ \E kind \in {"g", "u"}, q \in Pts(T) : \E near \in 1 .. Len(tree) : Iterate(kind, q, near)
 
 Spec == Init /\ [][Next]_vars
+\* C06 (liveness): under weak fairness of the loop every solve call returns
+FairSpec == Spec /\ WF_vars(TimeoutReturn) /\ WF_vars(\E kind \in {"g", "u"}, q \in Pts(T) : \E near \in 1 .. Len(tree) : Iterate(kind, q, near))
+Terminates == []<>(pc = "idle")
 
 (***************************************************************************)
 (* Properties                                                              *)
